@@ -350,4 +350,64 @@ def refreshStep (rq : Req) (ls : List LState) (ins : List (Bool × Fetch)) : Lis
   rs.map fun r =>
     if reload then { r.1 with inForce := if r.1.flt.enabled then r.1.flt.file else none } else r.1
 
+/-! ### set_url (`handleFilteringSetURL` → `filterSetProperties`) -/
+
+/-- What the request asks of the list (after `validateFilterURL` accepted it). -/
+structure SetReq where
+  /-- `data.url` differs from the list's current URL -/
+  changed : Bool
+  /-- another list already has `data.url` (`errFilterExists`) -/
+  dup : Bool
+  /-- `data.enabled` -/
+  enabled : Bool
+  deriving DecidableEq, Repr
+
+inductive SetRes where
+  | ok (restart : Bool)   -- 200; `restart`: the engine is rebuilt
+  | err                   -- 400
+  deriving DecidableEq, Repr
+
+structure SetOut where
+  flt : Flt
+  /-- the list now has the requested URL -/
+  urlChanged : Bool
+  res : SetRes
+  deriving DecidableEq, Repr
+
+/-- The `d.update(flt)` call inside `filterSetProperties`: `flt2` is the list
+with the new URL / enabled flag already applied, `old` the list before the
+request.  On an error the deferred function restores URL, name, enabled flag,
+update time and rule count — NOT the checksum. -/
+def setDownload (old flt2 : Flt) (changed : Bool) (f : Fetch) : SetOut :=
+  match updateIntl flt2.checksum f with
+  | some (c, k, out) => ⟨⟨true, c, k, some out⟩, changed, .ok true⟩
+  | none =>
+    if fetchFails f then ⟨⟨old.enabled, old.count, flt2.checksum, old.file⟩, false, .err⟩
+    else ⟨flt2, changed, .ok false⟩
+
+/-- `filterSetProperties` on the list found by its old URL. -/
+def setProps (flt : Flt) (rq : SetReq) (f : Fetch) : SetOut :=
+  if rq.changed && rq.dup then ⟨flt, false, .err⟩
+  else
+    -- `flt.unload()` after a URL change zeroes count and checksum
+    let flt1 : Flt := if rq.changed then ⟨flt.enabled, 0, 0, flt.file⟩ else flt
+    let restart := rq.changed || (flt1.enabled != rq.enabled)
+    let flt2 : Flt := ⟨rq.enabled, flt1.count, flt1.checksum, flt1.file⟩
+    if rq.enabled then
+      if restart then setDownload flt flt2 rq.changed f
+      else ⟨flt2, rq.changed, .ok false⟩
+    else ⟨⟨false, 0, 0, flt2.file⟩, rq.changed, .ok restart⟩
+
+/-- The handler on the whole state: list `i` is changed, and the engine is
+rebuilt from the files when `filterSetProperties` asks for a restart. -/
+def setURLStep (ls : List LState) (i : Nat) (rq : SetReq) (f : Fetch) : List LState × SetRes :=
+  match ls[i]? with
+  | none => (ls, .err)
+  | some l =>
+    let o := setProps l.flt rq f
+    let ls1 := ls.set i { l with flt := o.flt }
+    match o.res with
+    | .ok true => (ls1.map fun x => { x with inForce := if x.flt.enabled then x.flt.file else none }, o.res)
+    | r => (ls1, r)
+
 end AGH.C15
